@@ -95,6 +95,14 @@ func report(c *runner.Ctx, place, desc string, expected []string, actualErr erro
 }
 
 func structCases(c *runner.Ctx, k int, kd kindT) {
+	structCasesV(c, k, kd, "")
+	if k <= 3 {
+		// the first grouped member also carries required (before the group rule): it stays a member of its group
+		structCasesV(c, k, kd, "required,")
+	}
+}
+
+func structCasesV(c *runner.Ctx, k int, kd kindT, firstPrefix string) {
 	n := 1
 	for i := 0; i < k; i++ {
 		n *= len(groupMenu)
@@ -113,7 +121,11 @@ func structCases(c *runner.Ctx, k int, kd kindT) {
 			g /= len(groupMenu)
 			f := reflect.StructField{Name: fmt.Sprintf("F%d", i), Type: kd.t}
 			if r != "" {
-				f.Tag = reflect.StructTag(`valid:"` + r + `"`)
+				if len(ngroups) == 0 {
+					f.Tag = reflect.StructTag(`valid:"` + firstPrefix + r + `"`)
+				} else {
+					f.Tag = reflect.StructTag(`valid:"` + r + `"`)
+				}
 				ngroups[r] = true
 			}
 			sf = append(sf, f)
@@ -407,7 +419,7 @@ func main() {
 	runner.Main(runner.Config{
 		Property:  "C17",
 		Technique: "bounded-exhaustive enumeration of group assignments x value assignments x object placements x entry points vs per-object group model",
-		Rule: "objects with 2..3 (thorough 4) fields/keys, each in {none, either=1, either=2, botheq=1, botheq=2}, kinds string/int32 (and, up to 3 members, [2]int32, float64, bool, uint8, [2]string and a two-string struct whose distinct values print alike), values {zero,x,y}: all assignments; placements: single struct, two slice elements, slice of pointers, " +
+		Rule: "objects with 2..3 (thorough 4) fields/keys, each in {none, either=1, either=2, botheq=1, botheq=2}, kinds string/int32 (and, up to 3 members, [2]int32, float64, bool, uint8, [2]string and a two-string struct whose distinct values print alike), values {zero,x,y}: all assignments; every type also with `required,` in front of the first member's group rule (2..3 members); placements: single struct, two slice elements, slice of pointers, " +
 			"two map entries by pointer, two and three map entries by value, nested child + slice of kids + map of kids by value + array of kids under a parent using the same group ids; Map, []map (two objects), Url (both parameter orders); expected group clauses (one per violated group, listing all members, " +
 			"single-member groups as rule-writing errors) compared as multisets with members as sets; non-trivial = >=2 groups or objects whose verdicts differ",
 		Assumptions: []string{"every group member is present in Map/Url inputs (possibly empty)", "group clause order and Map member order unspecified (Go maps)"},
